@@ -143,3 +143,28 @@ macro_rules! proofs { ($($name:ident = $body:expr),*) => {$(
 )*}}
 proofs!(cancel_fixed_timeout = fixed(true), cancel_per_request_timeout = dynamic(true), no_cancel_fixed_timeout = fixed(false));
 
+
+/// Configuration reaches the service: the built layer uses the configured timeout and
+/// cancellation mode (default: cancel).
+#[kani::proof]
+#[kani::unwind(4)]
+#[kani::stub(std::time::Instant::now, tokio::model::std_instant_now)]
+fn builder_is_faithful() {
+    use tower::Layer;
+    let t = any_millis(1_000_000);
+    let set_cancel: bool = kani::any();
+    let cancel: bool = kani::any();
+    let mut b = crate::TimeLimiterLayer::builder().timeout_duration(t);
+    if set_cancel {
+        b = b.cancel_running_future(cancel);
+    }
+    let layer = b.build();
+    let tl = layer.layer(Inner::new(svc::any_script()));
+    let req: u32 = kani::any();
+    assert!(tl.config.timeout_source.get_timeout(&req) == t, "[C06.config_timeout_used] the configured timeout is the one applied to calls");
+    if set_cancel {
+        assert!(tl.config.cancel_running_future == cancel, "[C06.config_cancel_mode_used] the configured cancellation mode is used");
+    }
+    std::mem::forget(tl);
+    std::mem::forget(layer);
+}
